@@ -164,7 +164,7 @@ def run_mirror(cfg, out):
             w.net.heal(0.001)
             c = connect_at(w, start, run.C)
             c.udp.setKeepAliveInterval(1 / 60)
-            w.handler.on["update"] = [lambda dt: [cc.send(b"\\x00" * 12) for cc in list(w.ctxt.connections.values())]]
+            w.handler.on["update"] = [lambda dt: [cc.send(bytes(12)) for cc in list(w.ctxt.connections.values())]]
             same = 0
             seen = {}
 
